@@ -20,6 +20,12 @@ impl TryFrom<String> for BuildpackApi {
         // If no minor version is specified, it defaults to `0`.
         let (major, minor) = &value.split_once('.').unwrap_or((&value, "0"));
 
+        // Only plain digits are permitted, whereas `u64::from_str` would also accept a
+        // leading `+` sign.
+        if !major.bytes().chain(minor.bytes()).all(|b| b.is_ascii_digit()) {
+            return Err(Self::Error::InvalidBuildpackApi(value));
+        }
+
         Ok(Self {
             major: major
                 .parse()
